@@ -156,6 +156,15 @@ def run_impl(vh, ops, nproc=None, timeout=3600, env=None):
         for i, a in zip(redo, sub):
             ans[i] = a
         redo = [i for i, a in enumerate(ans) if a.get("notrun")]
+    # an op on which the process died is run once more, alone: a panic or a deadly signal caused by the op reproduces; a death
+    # that came from outside (memory pressure on a loaded machine) does not, and then the second answer counts (the first
+    # message is kept). Reports of the race detector are never retried.
+    for i, a in enumerate(ans):
+        if "crash" in a and "DATA RACE" not in a["crash"] and a.get("rc") != 66:
+            again = _run_lines([vh], [ops[i]], 1, env=e, timeout=timeout)[0]
+            if "crash" not in again:
+                again["recovered_crash"] = a["crash"][:1500]
+                ans[i] = again
     return ans
 
 
